@@ -3,7 +3,7 @@ import PanqecVerif.Model.Lattices.Toric2DCode
 open Panqec
 
 /-! `lat Toric2DCode <Lx> <Ly> qubits|stabs|stab <coord>|logx|logz|axis <coord>|type <coord>|
-    deform <name> <axis or -> <coord>|n|k` -/
+    deform <name> <axis or -> <coord>|rankfamily|n|k` -/
 namespace Drv
 
 def toric2DCodeModel (Lx Ly : Nat) : Lat2DModel where
@@ -12,6 +12,7 @@ def toric2DCodeModel (Lx Ly : Nat) : Lat2DModel where
   stabilizerType := Toric2DCode.stabilizerType Lx Ly
   qubitAxis := Toric2DCode.qubitAxis
   getDeformation := Toric2DCode.getDeformation
+  rankFamily := Toric2DCode.selStabs Lx Ly
 
 def handleLatToric2DCode : List String → Option String
   | "lat" :: "Toric2DCode" :: lx :: ly :: rest =>
